@@ -55,6 +55,12 @@ func configsBase(tier string) []xplore.Config {
 	for _, s := range sets[:3] {
 		out = append(out, xplore.Config{Name: fmt.Sprintf("requesters=%v concurrent double release", s), Bound: bound, Data: cfgData{addrs: s, rounds: 1, concRelease: true}})
 	}
+	// a requester naming a dialer the manager does not have ("A!"): its request
+	// fails without a dial, requesters that joined it share that failure, the
+	// entry is forgotten and the next request dials
+	for _, s := range [][]string{{"A!", "A"}, {"A", "A!", "A"}, {"A!", "B"}} {
+		out = append(out, xplore.Config{Name: fmt.Sprintf("requesters=%v (! = unknown dialer) rounds=2", s), Bound: bound, Data: cfgData{addrs: s, rounds: 2}})
+	}
 	rb := bound - 1
 	out = append(out, xplore.Config{Name: "requesters=[A A] canceller=false rounds=2", Bound: bound, Data: cfgData{addrs: []string{"A", "A"}, rounds: 2}})
 	out = append(out, xplore.Config{Name: "requesters=[A A B] canceller=true rounds=2", Bound: rb, Data: cfgData{addrs: []string{"A", "A", "B"}, canceller: true, rounds: 2}})
@@ -125,11 +131,25 @@ func (harness) Run(cfg xplore.Config, ch vrt.Chooser, trace bool) (xplore.Outcom
 		for i := range d.addrs {
 			ctxs[i], cancels[i] = vcontext.WithCancel(vcontext.Background())
 		}
+		badDialer := map[string]bool{}
+		usesBad := make([]bool, len(d.addrs))
+		clean := make([]string, len(d.addrs)) // the configuration's slice is shared between executions
+		for i, a := range d.addrs {
+			clean[i] = strings.TrimSuffix(a, "!")
+			if usesBad[i] = strings.HasSuffix(a, "!"); usesBad[i] {
+				badDialer[clean[i]] = true
+			}
+		}
+		d.addrs = clean
 		for i, addr := range d.addrs {
 			i, addr := i, addr
+			dialer := connection.DEFAULT
+			if usesBad[i] {
+				dialer = "no-such-dialer"
+			}
 			vrt.GoNamed(fmt.Sprintf("req%d-%s", i, addr), func() {
 				for r := 0; r < d.rounds; r++ {
-					conn, done, err := m.Connection(ctxs[i], addr, connection.DEFAULT)
+					conn, done, err := m.Connection(ctxs[i], addr, dialer)
 					results[i] = append(results[i], hold{conn, err})
 					if err != nil {
 						if conn != nil {
@@ -187,6 +207,9 @@ func (harness) Run(cfg xplore.Config, ch vrt.Chooser, trace bool) (xplore.Outcom
 				}
 				if h.err != nil && errors.Is(h.err, context.Canceled) {
 					ok = true // refused up front because the caller's context was already cancelled
+				}
+				if h.err != nil && badDialer[d.addrs[i]] && strings.Contains(h.err.Error(), "no such dialer") {
+					ok = true // created, or joined, by a requester naming an unknown dialer
 				}
 				if !ok {
 					viol("result-not-from-a-dial", "requester %d (%s) got (%p, %v) which no dial produced", i, d.addrs[i], h.conn, h.err)
